@@ -30,6 +30,9 @@ pub struct UpdCase {
     /// end-to-end replay through `scrut update --replace --assume-yes` with real commands: index into `cli_documents()`
     #[serde(default)]
     pub cli_doc: Option<usize>,
+    /// 1: every test is validated on stderr (`output_stream: stderr`, as document defaults would set it); stdout carries other text
+    #[serde(default)]
+    pub stderr: bool,
 }
 
 /// documents with real commands for the end-to-end replays: (text, number of tests)
@@ -41,6 +44,9 @@ pub fn cli_documents() -> Vec<String> {
         "````scrut\n$ printf 'x\\n```\\nno newline'\nold\n````\n",          // fence in output, unterminated last line
         "```scrut\n# only a comment\n```\n",                               // no test
         "```scrut\n$ echo a; (exit 3)\na\n[3]\n```\n",                     // passes with exit code
+        "```scrut {output_stream: stderr}\n$ echo to-stdout; echo to-stderr >&2; (exit 3)\nto-stderr\n```\n", // stderr selected, exit code changed
+        "```scrut {output_stream: stderr}\n$ echo to-stdout; echo to-stderr >&2\nstale\n```\n",             // stderr selected, output changed
+        "```scrut {output_stream: combined}\n$ echo to-stdout; echo to-stderr >&2; (exit 3)\nto-stdout\n```\n", // combined, output and exit code changed
     ];
     let prose = ["# Title\n\nSome ``inline`` prose\n\n", "---\ndefaults:\n  keep_crlf: false\n---\n\n", "```bash\n$ not a test\n```\n\n", "trailing text without newline"];
     let mut docs = vec![];
@@ -93,7 +99,24 @@ fn passing_output(tc: &TestCase) -> Vec<u8> {
     out
 }
 
-fn outputs_for(tests: &[TestCase], kinds: &[u8]) -> Vec<Output> {
+fn outputs_for(tests: &[TestCase], kinds: &[u8], stderr: bool) -> Vec<Output> {
+    let v = outputs_for_stdout(tests, kinds);
+    if !stderr {
+        return v;
+    }
+    v.into_iter().map(|o| Output { stderr: o.stdout, stdout: b"text on the stream\nthat is not validated\n".to_vec().into(), exit_code: o.exit_code }).collect()
+}
+
+fn select_stream(mut tests: Vec<TestCase>, stderr: bool) -> Vec<TestCase> {
+    if stderr {
+        for t in tests.iter_mut() {
+            t.config.output_stream = Some(scrut::config::OutputStreamControl::Stderr);
+        }
+    }
+    tests
+}
+
+fn outputs_for_stdout(tests: &[TestCase], kinds: &[u8]) -> Vec<Output> {
     tests
         .iter()
         .zip(kinds.iter())
@@ -184,13 +207,19 @@ impl Engine for VcUpdate {
                     let segs = segs.clone();
                     (0..216u8).map(move |code| {
                         let o = |v: u8| if v == 5 { 5 } else { v };
-                        UpdCase { segs: segs.clone(), keep, crlf, outcomes: vec![o(code % 6), o((code / 6) % 6), o(code / 36)], cli_doc: None }
+                        UpdCase { segs: segs.clone(), keep, crlf, outcomes: vec![o(code % 6), o((code / 6) % 6), o(code / 36)], cli_doc: None, stderr: false }
                     })
                 })
             })
         });
-        let cli = (0..cli_documents().len()).map(|i| UpdCase { segs: vec![], keep: 0, crlf: false, outcomes: vec![0, 0, 0], cli_doc: Some(i) });
-        Box::new(it.chain(cli))
+        let cli = (0..cli_documents().len()).map(|i| UpdCase { segs: vec![], keep: 0, crlf: false, outcomes: vec![0, 0, 0], cli_doc: Some(i), stderr: false });
+        // the same with stderr as the validated stream, for single-segment documents (the stream is orthogonal to the document's shape)
+        let lens2: Vec<usize> = all.iter().map(|s| s.len()).collect();
+        let on_stderr = (0..nseg).flat_map(move |seg| {
+            let len = lens2[seg];
+            (1..=len).flat_map(move |keep| (0..216u8).map(move |code| UpdCase { segs: vec![seg], keep, crlf: false, outcomes: vec![code % 6, (code / 6) % 6, code / 36], cli_doc: None, stderr: true }))
+        });
+        Box::new(it.chain(on_stderr).chain(cli))
     }
     fn relevant(&self, _property: &str, case: &UpdCase) -> bool {
         // CRLF variants only for the all-pass and first-fails vectors (line endings are orthogonal to outcomes)
@@ -207,7 +236,7 @@ impl Engine for VcUpdate {
     }
     fn bound(&self, tier: Tier) -> String {
         format!(
-            "all documents of <= {} segments (quick: first segment of two-segment documents from a core subset) over vc_md's {} segments with every truncation inside the last segment (LF; CRLF for outcome vectors that differ in the first test only) that the parser accepts x every outcome vector in {{pass, changed output, changed exit code, changed output without final newline, exit code 0 instead of the expected one, changed output with fence look-alikes}}^n for the n <= 3 tests x 3 successive applications of update",
+            "all documents of <= {} segments (quick: first segment of two-segment documents from a core subset) over vc_md's {} segments with every truncation inside the last segment (LF; CRLF for outcome vectors that differ in the first test only) that the parser accepts x every outcome vector in {{pass, changed output, changed exit code, changed output without final newline, exit code 0 instead of the expected one, changed output with fence look-alikes}}^n for the n <= 3 tests x 3 successive applications of update; single-segment documents also with stderr as the validated stream (stdout carrying other text); end-to-end documents with real commands incl. output_stream stderr/combined",
             if tier == Tier::Quick { 2 } else { 3 },
             segments().len()
         )
@@ -235,7 +264,7 @@ impl Engine for VcUpdate {
             return res;
         }
         let tests = match parse(&doc) {
-            Ok(t) => t,
+            Ok(t) => select_stream(t, case.stderr),
             Err(_) => {
                 res.counters.push(("skipped_rejected_by_parser", 1));
                 return res;
@@ -247,7 +276,7 @@ impl Engine for VcUpdate {
             return res;
         }
         let kinds = &case.outcomes[..n];
-        let outputs = outputs_for(&tests, kinds);
+        let outputs = outputs_for(&tests, kinds, case.stderr);
         let fail = |res: &mut CaseResult, clause: &str, exp: String, obs: String| {
             if res.findings.is_empty() {
                 res.findings.push(Finding::new("C10", clause, exp, format!("{obs}; document = {doc:?}, outcomes = {kinds:?}")));
@@ -291,7 +320,7 @@ impl Engine for VcUpdate {
         }
         // (5) same commands, and the updated tests pass
         let tests1 = match parse(&u1) {
-            Ok(t) => t,
+            Ok(t) => select_stream(t, case.stderr),
             Err(e) => {
                 fail(&mut res, "updated-document-parses", format!("{u1:?} parses"), e);
                 return res;
@@ -320,7 +349,7 @@ impl Engine for VcUpdate {
                 break;
             }
             cur_tests = match parse(&next) {
-                Ok(t) => t,
+                Ok(t) => select_stream(t, case.stderr),
                 Err(e) => {
                     fail(&mut res, "updated-document-parses", format!("{next:?} parses"), e);
                     return res;
@@ -335,7 +364,7 @@ impl Engine for VcUpdate {
         res
     }
     fn size(&self, case: &UpdCase) -> usize {
-        case.keep * 100 + case.outcomes.iter().map(|o| *o as usize).sum::<usize>() + case.crlf as usize
+        case.keep * 100 + case.outcomes.iter().map(|o| *o as usize).sum::<usize>() + case.crlf as usize + case.stderr as usize * 50
     }
 }
 
